@@ -443,6 +443,10 @@ def run(ctx):
                         res.count("unit-reenc:unmodelled-skipped")
                         continue
                     model = ["error"]
+                if got == ["hang"] and model == ["error"]:
+                    # x690's indefinite-length loop (known finding of C20, predicted there by the mirror); the model runs out of fuel
+                    res.count("unit-reenc:impl-hang-model-error")
+                    continue
                 if model != got:
                     res.disagree(suite, case, got, model)
             elif suite in ("unit-val", "unit-pdu"):
